@@ -66,13 +66,13 @@ Theorem detection_valid_first : forall ref est w beta trim,
   valid_first (EM.detection ref est w beta trim) (validate_boundary_arr (arr2 ref) (arr2 est)).
 Proof.
   intros. unfold EM.detection. rewrite em_validate_boundary_arr.
-  apply valid_first_bind; [intros e; apply boundary_raises_ValueError|intros _; eexists; reflexivity].
+  apply valid_first_bind; [intros e; apply boundary_raises_ValueError; discriminate|intros _; eexists; reflexivity].
 Qed.
 Theorem deviation_valid_first : forall ref est trim,
   valid_first (EM.deviation ref est trim) (validate_boundary_arr (arr2 ref) (arr2 est)).
 Proof.
   intros. unfold EM.deviation. rewrite em_validate_boundary_arr.
-  apply valid_first_bind; [intros e; apply boundary_raises_ValueError|intros _; eexists; reflexivity].
+  apply valid_first_bind; [intros e; apply boundary_raises_ValueError; discriminate|intros _; eexists; reflexivity].
 Qed.
 (* in terms of the documented convention *)
 Corollary beat_f_measure_scored_iff_convention : forall ref est w,
@@ -189,14 +189,14 @@ Theorem onset_prf_valid_first : forall ref est tol strict beta,
   valid_first (TR.onset_precision_recall_f1 ref est tol strict beta) (validate_boundary_arr (arr2 ref) (arr2 est)).
 Proof.
   intros. unfold TR.onset_precision_recall_f1. rewrite tr_pair_validator.
-  apply valid_first_bind; [intros e; apply boundary_raises_ValueError|]. intros _.
+  apply valid_first_bind; [intros e; apply boundary_raises_ValueError; discriminate|]. intros _.
   destruct ((length ref =? 0)%nat || (length est =? 0)%nat); eexists; reflexivity.
 Qed.
 Theorem offset_prf_valid_first : forall ref est ratio mintol strict beta,
   valid_first (TR.offset_precision_recall_f1 ref est ratio mintol strict beta) (validate_boundary_arr (arr2 ref) (arr2 est)).
 Proof.
   intros. unfold TR.offset_precision_recall_f1. rewrite tr_pair_validator.
-  apply valid_first_bind; [intros e; apply boundary_raises_ValueError|]. intros V.
+  apply valid_first_bind; [intros e; apply boundary_raises_ValueError; discriminate|]. intros V.
   destruct ((length ref =? 0)%nat || (length est =? 0)%nat); [eexists; reflexivity|].
   unfold TR.match_note_offsets. unfold validate_boundary_arr in V. apply bind_ok in V. destruct V as [Vr _].
   rewrite tr_validate_ivs_arr, Vr. eexists; reflexivity.
